@@ -9,7 +9,13 @@ Engine part: the real `Guard` with the real resolver (sync, behind an async wrap
 (sync / async) or none, policies whose conditions read `subject.roles`, and a recording logger sink:
 (allowed, effect, audit `env.subject.roles`) against the model's `guard` command fed with the model's
 expansion; spec: the roles in the audit record are the closure of the subject's own roles (own roles on
-failure), and the decision is the one the closure dictates."""
+failure), and the decision is the one the closure dictates.
+
+Tie by regeneration: `StaticRoleResolver.__init__` / `.expand` are translated from the current source text into
+`Rbacx.Generated.Src.roles_init_graph` / `Src.roles_expand` (a FUEL-bounded `while`; harness/pytolean_loops.py, plugin
+`extractors/src_translation_roles.py`); the per-run obligation `Run/C18_translated.lean` proves that an explicit budget always
+suffices (termination, proved of the translated source) and that the result is then the model's `Roles.expand`; the translation
+is evaluated against the real resolver (`translated_vs_python`)."""
 from __future__ import annotations
 
 import contextlib
@@ -674,6 +680,88 @@ def shrink(case: dict) -> dict:
         return {**case, "shrink_error": repr(e)}
 
 
+# ----------------------------------------------------------------------------- the translated resolver vs the real one
+
+
+def translated_jobs(run: lib.Run):
+    """(graph, label, [roles…]): every graph over ≤3 names in the 4 renderings (all names keys / only nodes with parents / duplicated
+    parents / a foreign parent, reversed key order — self-loops, absent keys, parents that are no keys included) × every role list of
+    length ≤3 over the names + one absent name, + None; no graph at all; seeded random graphs of 5–8 nodes; one chain of 300 nodes"""
+    for n in (1, 2, 3):
+        rl = role_lists(n, 3)
+        for g, label in enum_graphs(n):
+            yield g, "translated/" + label, rl
+    yield None, "translated/no-graph", role_lists(2, 2)
+    yield {}, "translated/empty-graph", role_lists(2, 2)
+    r = random.Random(run.seed * 7919 + 181818)
+    for i in range((300 if run.tier == "quick" else 3000) * run.boost):
+        k = r.randrange(5, 9)
+        pool = r.sample(ODD_NAMES, k) if r.random() < 0.5 else [f"r{j}" for j in range(k)]
+        g: dict = {}
+        dens = r.choice([0.1, 0.25, 0.5, 0.9])
+        for name in pool:
+            if r.random() < 0.85:
+                ps = [p for p in pool if r.random() < dens]
+                if r.random() < 0.3:
+                    ps += [r.choice(pool)] * r.randrange(1, 3)              # duplicates
+                if r.random() < 0.2:
+                    ps.append(r.choice(ODD_NAMES + ["ghost"]))              # a parent that may be no key
+                r.shuffle(ps)
+                g[name] = ps
+        names = pool + ["ghost"]
+        yield g, f"translated/random#{i}", [random_roles(r, names) for _ in range(6)]
+    chain = {f"r{i:04d}": [f"r{i + 1:04d}"] for i in range(300)}
+    yield chain, "translated/deep-chain/300", [["r0000"], ["r0150", "r0000"], ["r0300"], None]
+
+
+def translated_vs_python(run: lib.Run) -> tuple[bool, str]:
+    """the translated resolver (Generated.Src.roles_init_graph / roles_expand, evaluated by `lake env lean --run
+    Rbacx/Run/SrcEvalRoles.lean` with fuel = the bound of Translated.roles_expand_terminates) against the real
+    `StaticRoleResolver(graph).expand(roles)` on the same arguments.  Validates the translator (harness/pytolean_loops.py) and
+    Model/PyLib.lean, the two things the obligation C18_translated trusts."""
+    import copy
+    import subprocess
+    jobs, lines = [], []
+    for graph, label, rlists in translated_jobs(run):
+        wants = []
+        try:
+            with deadline(10.0):
+                resolver = StaticRoleResolver(copy.deepcopy(graph))
+                for roles in rlists:
+                    wants.append(impl_expand(graph, copy.deepcopy(roles), resolver))
+        except Timeout:
+            return True, "skipped: the real expand did not return within 10 s (reported by the resolver part)"
+        jobs.append((graph, label, rlists, wants))
+        lines.append(json.dumps({"graph": proto.enc(graph), "items": [proto.enc(rs) for rs in rlists]}))
+    p = subprocess.run(["lake", "env", "lean", "--run", "Rbacx/Run/SrcEvalRoles.lean"], cwd=lib.LEAN, input="\n".join(lines) + "\n",
+                       capture_output=True, text=True, timeout=900)
+    outs = [ln for ln in p.stdout.split("\n") if ln]
+    if p.returncode != 0 or len(outs) != len(lines):
+        return False, "SrcEvalRoles: " + (p.stderr or p.stdout)[-800:]
+    bad = n = 0
+    for (graph, label, rlists, wants), ln in zip(jobs, outs):
+        got = json.loads(ln)
+        if "values" not in got or len(got["values"]) != len(rlists):
+            return False, f"SrcEvalRoles: {ln[:300]}"
+        for roles, want, g1 in zip(rlists, wants, got["values"]):
+            n += 1
+            if "ok" not in want:
+                run.count("translated-roles: python raised (not judged)")
+                continue
+            run.count("translated-roles: " + ("roles=None/[]" if not roles else "inherits" if len(want["ok"]) > len(set(roles)) else "nothing inherited"))
+            if "value" not in g1 or proto.dec(g1["value"]) != want["ok"]:
+                bad += 1
+                if bad == 1:
+                    run.disagreements.append({"part": "translated source vs python", "label": label,
+                                              "graph": None if graph is None else wire_graph(graph), "roles": roles,
+                                              "impl": want, "model": g1,
+                                              "what": "the translated StaticRoleResolver.expand (Generated.Src.roles_expand with fuel = "
+                                                      "fuelBound) and the real method differ"})
+    run.count("translated-roles", n)
+    run.evaluations += n
+    return bad == 0, f"{bad} of {n} evaluations differ" if bad else f"agree on {n} evaluations"
+
+
 # ----------------------------------------------------------------------------- check / replay
 
 
@@ -694,6 +782,8 @@ def check(run: lib.Run, audit: dict) -> int:
                 "(chains, cycles, complete, sparse/dense, duplicates, non-key parents) × 6 role lists each. "
                 "engine: every graph over 2 roles × role lists ≤2 × {static, async-wrapped static, raising, async raising, no resolver} × call flavours "
                 "× 8 condition templates (in/contains/hasAny/hasAll/overlap/not/and/permit+deny) + seeded random. "
+                "translated source of StaticRoleResolver.__init__/.expand (fuel = the proved bound) vs the real resolver: every graph over ≤3 "
+                "names in the 4 renderings × every role list of length ≤3 + None, no graph, seeded random graphs of 5–8 nodes, a chain of 300. "
                 "non-trivial = the closure adds at least one inherited role (engine: or the resolver raised)")
     run.exhaustive = True
     run.assumptions = ["role names, graph keys and parents are str of Unicode scalar values (no lone surrogates); the graph is a dict[str, list[str]]",
@@ -701,9 +791,23 @@ def check(run: lib.Run, audit: dict) -> int:
                        "a call to expand that does not return within 5 s is reported as non-terminating"]
     if not audit["ok"]:
         raise lib.CheckError(f"Lean build/audit failed at {audit['stage']}: {audit.get('log') or audit.get('forbidden') or audit.get('bad_axioms')}")
+    # the resolver as it is written NOW, translated into Lean (its while loop run with a budget), is proved to terminate and to equal the model's
+    tr = audit["facts"].get("translated_roles")
+    untranslatable = isinstance(tr, dict) and "extraction_failed" in tr
+    ok_tr, detail_tr = lib.run_obligation("C18_translated")
+    run.obligation("C18_translated: Generated.Src.roles_expand (the current source text of StaticRoleResolver.expand, its while loop run with a "
+                   "budget) returns for every budget ≥ fuelBound g roles = |roles| + number of parent entries (termination on every graph) and "
+                   "then equals the model's Roles.expand, for every dict[str, list[str]] and list[str]; Src.roles_init_graph keeps the graph", ok_tr,
+                   "discharged" if ok_tr else (str(tr["extraction_failed"]) if untranslatable else detail_tr))
+    if untranslatable or not isinstance(tr, dict):
+        ok_py, detail_py = True, "skipped: the resolver is not in the translatable subset (see C18_translated)"
+    else:
+        ok_py, detail_py = translated_vs_python(run)
+    run.obligation("translated resolver evaluates like the real StaticRoleResolver(graph).expand(roles) (translator + Model/PyLib.lean vs CPython)",
+                   ok_py, detail_py)
     run_all(run, audit, scale=run.boost)
-    if run.disagreements and not run.spec_failures:
-        run_all(run, audit, scale=5)  # correspondence broke: widen the search for a failing input
+    if (run.disagreements or not ok_tr) and not run.spec_failures:
+        run_all(run, audit, scale=5)  # correspondence or the translation tie broke: widen the search for a failing input
     violations = []
     if run.spec_failures:
         first = min(run.spec_failures, key=lambda c: (len(json.dumps(c["graph"])) + len(json.dumps(c["roles"]))))
@@ -714,11 +818,21 @@ def check(run: lib.Run, audit: dict) -> int:
             "case": c, "more": len(run.spec_failures) - 1,
             "by_reason": _by_reason(run.spec_failures)})
         violations.append((path, True))
-    elif run.disagreements:
+    elif not ok_tr:
+        path = run.write_replay("obligation", {
+            "what": "per-run obligation Rbacx/Run/C18_translated.lean no longer checks: the translated source of StaticRoleResolver.expand is not "
+                    "proved to terminate within fuelBound and to equal the model's Roles.expand, the function theorems Rbacx.C18.* are about; the "
+                    "widened search found no graph and role list on which the implementation's output is not the sorted closure",
+            "translation": tr, "lean": detail_tr[-1500:], "first_disagreement": run.disagreements[:1]})
+        violations.append((path, False))
+    elif run.disagreements or not ok_py:
+        first = run.disagreements[0] if run.disagreements else {"part": "translated source vs python", "what": detail_py}
         path = run.write_replay("correspondence", {
-            "what": "model (Rbacx.Roles.expandOpt / Rbacx.guardEval) and implementation disagree on (expanded roles | allowed, effect, audit "
+            "what": ("translated source vs python: " + str(first.get("what")) + "; the obligation C18_translated rests on a translation that "
+                     "CPython contradicts (or that could not be evaluated)") if first.get("part") == "translated source vs python" else
+                    "model (Rbacx.Roles.expandOpt / Rbacx.guardEval) and implementation disagree on (expanded roles | allowed, effect, audit "
                     "env.subject.roles); theorems Rbacx.C18.* no longer speak about this code",
-            "first": run.disagreements[0], "count": len(run.disagreements)})
+            "first": first, "count": len(run.disagreements)})
         violations.append((path, False))
     return run.finish(audit, violations)
 
@@ -732,7 +846,15 @@ def _by_reason(fs: list) -> dict:
 
 def replay(run: lib.Run, audit: dict, path: str) -> int:
     rp = json.load(open(path))
-    c = rp.get("case") or rp.get("first")
+    c = rp.get("case") or rp.get("first") or (rp.get("first_disagreement") or [None])[0]
+    if c is None or "graph" not in c:
+        print("nothing to re-run on the implementation:", rp.get("what"))
+        return 0
+    if c.get("part") == "translated source vs python":
+        graph = None if c["graph"] is None else {k: list(ps) for k, ps in c["graph"]}
+        print("graph:", graph, "roles:", c["roles"])
+        print("expand now:", impl_expand(graph, c["roles"]), "recorded:", c.get("impl"), "translated:", c.get("model"))
+        return 0
     graph = {k: list(ps) for k, ps in c["graph"]}
     if c["part"] == "resolver":
         try:
